@@ -21,7 +21,7 @@ class C02(EngineProp):
         "whether a step 'is waiting' for an event is read from the live reducer state just before the event's add-event tick",
         "virtual time / generated tie-breaks as in C01",
     ]
-    gen_kwargs = dict(collect=False, waits=True, retries=True, unhandled=True, reply_step=True, ask=True)
+    gen_kwargs = dict(collect=False, waits=True, retries=True, unhandled=True, reply_step=True, ask=True, ask_consumer=True)
     expect_result = True
 
     def oracle(self, spec, rec, r: CaseResult) -> None:
